@@ -88,6 +88,24 @@ impl OwnedEntry {
 }
 
 /// Register a file of an archive in maps.
+/// Registers a directory and all its ancestors (archives do not always have
+/// members for directories), each one being listed once in its parent.
+fn register_dir(dirs: &mut HashMap<SharedString, Vec<OwnedEntry>>, id: SharedString) {
+    if dirs.contains_key(&id) {
+        return;
+    }
+    dirs.insert(id.clone(), Vec::new());
+
+    if !id.is_empty() {
+        let parent_id: SharedString = match id.rfind('.') {
+            Some(n) => id[..n].into(),
+            None => "".into(),
+        };
+        register_dir(dirs, parent_id.clone());
+        dirs.entry(parent_id).or_default().push(OwnedEntry::Dir(id));
+    }
+}
+
 fn register_file(
     file: ZipFile,
     index: usize,
@@ -131,11 +149,13 @@ fn register_file(
             files.insert(desc.clone(), index);
             OwnedEntry::File(desc)
         } else {
-            if !dirs.contains_key(&id) {
-                dirs.insert(id.clone(), Vec::new());
-            }
-            OwnedEntry::Dir(id)
+            // Directories register themselves in their parent
+            register_dir(dirs, id);
+            return Some(());
         };
+
+        // The archive may have no member for the parent directory
+        register_dir(dirs, parent_id.clone());
         dirs.entry(parent_id).or_default().push(entry);
 
         Some(())
@@ -238,6 +258,8 @@ where
             let file = archive.by_index(index)?;
             register_file(file, index, &mut files, &mut dirs, &mut id_builder);
         }
+        // The root always exists, even in an empty archive
+        register_dir(&mut dirs, "".into());
 
         Ok(Zip {
             files,
